@@ -267,6 +267,16 @@ pub fn boundary_families(full: bool) -> Vec<(String, String)> {
             }
         }
     }
+    // every ASCII character (and a few digits of other scripts) in a position where a hexadecimal digit is expected
+    for c in (0u32..128).chain([0xff, 0x660, 0x96f, 0xff11, 0xff21, 0x1d7d8]).filter_map(char::from_u32) {
+        push("bf:hexpos-x", format!("\"\\x{c}1\"\n"));
+        push("bf:hexpos-x2", format!("\"\\x1{c}\"\n"));
+        push("bf:hexpos-u", format!("\"\\u00{c}1\"\n"));
+        push("bf:hexpos-U", format!("\"a\\U0000004{c}b\"\n"));
+        push("bf:hexpos-tag", format!("!%{c}0 a\n"));
+        push("bf:hexpos-tag2", format!("- !e%4{c} a\n"));
+        push("bf:hexpos-directive", format!("%TAG !e! tag:%{c}1\n--- !e!x a\n"));
+    }
     // inputs ending after every token kind, with and without final break
     for t in ["a", "- a", "- ", "-", "k:", "k: v", "? k", "? ", ": v", "[a", "[a,", "[a]", "{a", "{a: b", "{a: b}", "&a", "&a b", "*a", "!t", "!!str a", "|", ">", "|+", "|-", ">2", "'a'", "'a", "\"a\"", "\"a", "\"a\\", "---", "--- a", "...", "%YAML 1.2", "%TAG ! x", "# c", "a #c", "a:", "a: |", "- |", "- >-", "k: |2", "k: &a", "k: !t", "k: *a"] {
         push("bf:ending", t.to_string());
